@@ -184,6 +184,13 @@ def _hist1(v=3):
     return lena.structures.histogram([0, 1, 2], [v, v + 1])
 
 
+def _hist_ctxbins():
+    import lena.structures
+    return lena.structures.histogram(
+        [0, 1, 2], [(2, {"variable": {"name": "n", "type": "count", "count": {"name": "n"}}}),
+                    (5, {"variable": {"name": "n", "type": "count", "count": {"name": "n"}}})])
+
+
 def _hist_float():
     import lena.structures
     return lena.structures.histogram([0, 1, 2], [0.5, 1.5])
@@ -310,6 +317,9 @@ SPECIFIC = {
     "hist_pair": lambda env: (_hist1(), {"variable": {"name": "x"}}),
     "hist_float": lambda env: (_hist_float(), {"h": 1}),
     "hist_nograph": lambda env: (_hist1(), {"histogram": {"to_graph": False}}),
+    # bins that are (data, context) pairs, as SplitIntoBins yields them
+    "hist_ctxbins_nograph": lambda env: (_hist_ctxbins(), {"histogram": {"to_graph": False}}),
+    "A_hist_ctxbins": lambda env: (_hist_ctxbins(), {"plot": {"name": "cb"}}),
     "graph_pair": lambda env: (_graph(), {"g": 1}),
     "small_int": lambda env: (99, {"sel": {"no": 1}}),
     "group_scalar": lambda env: (5, {"group": [{"a": 1}]}),
@@ -419,6 +429,10 @@ CONFIGS = {
                  ["q1.pdf", "q2.pdf", "q3.pdf", "q3.png", "b.tex"]),
     "HistToGraph": (["A_hist", "A_hist_pair", "A_hist_float"],
                     ALL_COMMON + ["hist_nograph", "graph_pair", "tex_value"], []),
+    # a make_value given as a Variable (its context is composed with that of the bins)
+    "HistToGraph_mv": (["A_hist_ctxbins", "A_hist_ctxbins"],
+                       ["int", "pair_unrelated", "foreign", "hist_ctxbins_nograph", "graph_pair",
+                        "hist_nograph"], []),
     "MapBins": (["A_hist", "A_hist_pair"],
                 ALL_COMMON + ["hist_float", "graph_pair", "A_histhist", "A_histhist_pair"], []),
     # select_bins given as a predicate on the bin content, not as a type
@@ -488,6 +502,10 @@ def build_element(name, env):
         return lena.output.PDFToPNG(verbose=False)
     if name == "HistToGraph":
         return lena.structures.HistToGraph()
+    if name == "HistToGraph_mv":
+        import lena.variables
+        return lena.structures.HistToGraph(
+            make_value=lena.variables.Variable("mean", lambda b: b[0], type="stat", unit="u"))
     if name == "MapBins":
         return lena.structures.MapBins(_double, select_bins=int)
     if name == "MapBins_pred":
@@ -805,3 +823,5 @@ def run_case(r, obs):
 RULE += (' Added: unselected data with non-callable attributes named write / run / fill / scale (a '
          'namedtuple with a boolean field "write", a flag object); selector predicates given as '
          'callable objects that are false in a boolean context.')
+RULE += (' Added: HistToGraph with make_value given as a Variable over histograms whose bins are '
+         '(data, context) pairs, beside such a histogram with histogram.to_graph False.')
